@@ -125,14 +125,18 @@ def matrix(rng, fails, stats, n):
             vals = numpy.array([rng.choice([0.0, 1.0, -1.5, rng.uniform(-100, 100)]) for _ in range(size)]).astype(dt)
             if order in ('MP', 'PM'):
                 vals = numpy.abs(vals)
-        raw = vals.reshape(shape)
-        ff = ComplexFormatFunction(dt, order, band_dimension=bd)
+        # files hand the format function byte-swapped dtypes (NITF is big-endian): both byte orders of every multi-byte type
+        bo = rng.choice(['<', '>']) if numpy.dtype(dt).itemsize > 1 else '|'
+        dts = bo + numpy.dtype(dt).str[1:]
+        raw = vals.reshape(shape).astype(dts)
+        seen.add(('byteorder', dt, bo, order in ('MP', 'PM')))
+        ff = ComplexFormatFunction(dts, order, band_dimension=bd)
         ff.set_raw_shape(tuple(shape))
         fshape = [s for i, s in enumerate(shape) if not (collapsed and i == bd)]
         if not collapsed:
             fshape[bd] = shape[bd] // 2
         ff.set_formatted_shape(tuple(fshape))
-        case = {'order': order, 'dtype': dt, 'shape': shape, 'band_dim': bd, 'collapsed': collapsed}
+        case = {'order': order, 'dtype': dts, 'shape': shape, 'band_dim': bd, 'collapsed': collapsed}
         stats['matrix_cases'] = stats.get('matrix_cases', 0) + 1
         try:
             z = ff(raw, tuple(slice(0, s, 1) for s in shape), squeeze=False)
@@ -153,7 +157,7 @@ def matrix(rng, fails, stats, n):
         want = want[..., 0] if collapsed else numpy.moveaxis(want, -1, bd)
         scale = max(1.0, float(numpy.max(numpy.abs(want)))) if want.size else 1.0
         if tuple(z.shape) != tuple(want.shape) or not numpy.allclose(z, want.astype('complex64'), rtol=3e-6, atol=3e-6 * scale):
-            fails.append({'kind': 'matrix', 'msg': f'decode differs from the standard definition for order {order}, dtype {dt}, band axis {bd}, collapsed={collapsed}', 'case': case})
+            fails.append({'kind': 'matrix', 'msg': f'decode differs from the standard definition for order {order}, dtype {dts}, band axis {bd}, collapsed={collapsed}', 'case': case})
             continue
         if order in ('IQ', 'QI') or numpy.dtype(dt).kind == 'u':
             try:
